@@ -22,9 +22,9 @@ type TupleVal struct{ V []Value }
 type ObjKind int
 
 const (
-	OCell ObjKind = iota // holds one Value of type T
-	OConcArr              // *ArrVal with concrete length
-	OSymArr               // lifted Value: leaves are SMT arrays indexed by Int
+	OCell    ObjKind = iota // holds one Value of type T
+	OConcArr                // *ArrVal with concrete length
+	OSymArr                 // lifted Value: leaves are SMT arrays indexed by Int
 )
 
 type Obj struct {
@@ -105,9 +105,9 @@ type MapContent struct {
 	Base *MapBase
 }
 type MapEnt struct {
-	C *Term // guard under which this entry was written
-	K *Term
-	V Value
+	C   *Term // guard under which this entry was written
+	K   *Term
+	V   Value
 	Del bool
 }
 type MapBase struct { // symbolic initial content (nil => empty)
@@ -414,6 +414,43 @@ func Inst(t *Term) *Term {
 func theoryAxioms(all []*Term) []*Term {
 	var ax []*Term
 	empty := StrLit("")
+	// literal facts: connect theory functions applied to literals (reachable through equalities
+	// with variables) with their computed values
+	used := map[string]bool{}
+	for _, t := range all {
+		if t.Op == "app" {
+			used[t.Name] = true
+		}
+	}
+	for _, t := range all {
+		if t.Op != "lit" {
+			continue
+		}
+		raw := func(fn string, s Sort) *Term { return mk("app", fn, s, t) }
+		switch t.S {
+		case SStr:
+			if used["slen"] {
+				ax = append(ax, Eq(raw("slen", SInt), SLen(t)))
+			}
+			if used["fold"] {
+				ax = append(ax, Eq(raw("fold", SStr), Fold(t)))
+			}
+			if used["s2b"] {
+				ax = append(ax, Eq(raw("s2b", SBytes), S2B(t)))
+			}
+		case SBytes:
+			if used["blen"] {
+				ax = append(ax, Eq(raw("blen", SInt), BLen(t)))
+			}
+			if used["b2s"] {
+				ax = append(ax, Eq(raw("b2s", SStr), B2S(t)))
+			}
+		case STime:
+			if used["inst"] && t == TimeZero {
+				ax = append(ax, Eq(raw("inst", SInt), IntLit(0)))
+			}
+		}
+	}
 	for _, t := range all {
 		if t.open {
 			continue
@@ -779,6 +816,9 @@ func (ex *Exec) merge(c *Term, a, b Value) Value {
 		add(c, x.Alts)
 		add(Not(c), y.Alts)
 		return r
+	case *ReflVal:
+		y := b.(*ReflVal)
+		return &ReflVal{IV: ex.merge(c, x.IV, y.IV).(*IfaceVal)}
 	case *MapContent:
 		y := b.(*MapContent)
 		if x == y {
